@@ -60,7 +60,7 @@ fn run_sweep(id: &str, mode: Mode, tier: Tier, rule: &str) -> i32 {
             "language ids without a harness row: {unknown:?} (add to frontends::LANG_IDS)"
         ));
     }
-    if mode == Mode::C01 && std::env::var("HV_FAMILIES").is_err() {
+    if mode == Mode::C01 && std::env::var("HV_FAMILIES").map(|f| f.contains("ladder")).unwrap_or(true) {
         let ladder = crate::sweep::Ladder::new(tier);
         report.set("pumped_ladder_units", ladder.cases.len() as u64);
         let cfg = PoolConfig { job: "ladder-C01".into(), tier, extra_args: vec![], chunk: 4, workers: ncpu() };
